@@ -32,6 +32,19 @@ def body_form(ctx, rule, inst, U, imp, fn, want, where=None, inline=(), record=N
             ok = not list(S.compare_cases([(g, k, T.canon(t)) for g, k, t in outs], [], lambda val: ("val", want)))
         except T.Unsupported:
             ok = False
+    if not ok and not inline:
+        # helper default methods of the library's traits (other than the ones the specifications name) looked through
+        from . import generic as G
+        try:
+            outs2 = T.Evaluator(U, keep_tags=True, inline={"*"}, stop=G.STOP).summarize(b)
+            if len(outs2) == 1 and not outs2[0][0] and outs2[0][1] == "val":
+                ok = S.match(T.canon(outs2[0][2]), want) is None
+            elif len(outs2) > 1:
+                ok = not list(S.compare_cases([(g, k, T.canon(t)) for g, k, t in outs2], [], lambda val: ("val", want)))
+            if not ok:
+                outs = outs2 if outs2 else outs
+        except T.Unsupported:
+            pass
     if not ok and record is not None and len(outs) == 1 and not outs[0][0] and outs[0][1] == "val":
         from . import ovequiv
         try:
